@@ -131,19 +131,26 @@ def applyFloorMin (cur : Option Int) (n : Int) : Option Int :=
 
 /-! ## `initTls` -/
 
-/-- where the context's verification store comes from -/
-inductive Trust
-  | none
-  | locations (file path : Bool)   -- `SSL_CTX_load_verify_locations(caFile?, caPath?)` succeeded
-  | default                         -- `SSL_CTX_set_default_verify_paths`
+/-- where the context's verification store comes from.  An OpenSSL store ACCUMULATES: every successful
+`SSL_CTX_load_verify_locations` / `SSL_CTX_set_default_verify_paths` adds to it, nothing removes — so this is the SET of
+sources that were loaded, not the last one. -/
+structure Trust where
+  file : Bool := false      -- `SSL_CTX_load_verify_locations(caFile, …)` succeeded with a file
+  path : Bool := false      -- … with a directory
+  dflt : Bool := false      -- `SSL_CTX_set_default_verify_paths`: the SYSTEM store is trusted as well
   deriving DecidableEq, Repr
+
+def Trust.none : Trust := {}
+def Trust.isNone (t : Trust) : Bool := !t.file && !t.path && !t.dflt
+/-- some explicitly configured location was loaded -/
+def Trust.located (t : Trust) : Bool := t.file || t.path
 
 /-- effective settings of one `SSL_CTX` (what the interposed `SSL_CTX_*` calls observe) -/
 structure Ctx where
   role : Mode
   verify : List VFlag := []
   minProto : Option Int := none
-  trust : Trust := .none
+  trust : Trust := {}
   certLoaded : Bool := false
   keyLoaded : Bool := false
   anon : Bool := false            -- the cipher list offers / accepts anonymous key exchange
@@ -159,11 +166,11 @@ def stepCtx (e : Env) (f : Files) (c : Ctx) (s : Step) : Option Ctx :=
         some (match x with
           | .certLoads => { c with certLoaded := true }
           | .keyLoads => { c with keyLoaded := true }
-          | .caLoads => { c with trust := .locations e.cfg.caFileSet e.cfg.caPathSet }
+          | .caLoads => { c with trust := { c.trust with file := c.trust.file || e.cfg.caFileSet, path := c.trust.path || e.cfg.caPathSet } }
           | _ => c)
       else none
     | .setVerify fl => some { c with verify := fl }
-    | .defaultVerifyPaths => some { c with trust := .default }
+    | .defaultVerifyPaths => some { c with trust := { c.trust with dflt := true } }
     | .fail => none
     | .applyFloor => some { c with minProto := applyFloorMin c.minProto e.cfg.minVersion }
     | .setCipherList => some { c with anon := e.cfg.ciphers == .enablesAnon }
@@ -397,14 +404,23 @@ structure CertProps where
   possession : Bool       -- the presenter owns the private key of the certificate it shows
   deriving DecidableEq, Repr
 
-/-- content of a verification store -/
-inductive Anchors | right | wrong | empty
+/-- content of a verification store: which of the two test CAs it holds -/
+inductive Anchors | right | wrong | empty | both
   deriving DecidableEq, Repr
 
 def chains (c : CertProps) : Anchors → Bool
   | .right => c.issuer == .rightCA
   | .wrong => c.issuer == .wrongCA
   | .empty => false
+  | .both => c.issuer == .rightCA || c.issuer == .wrongCA
+
+/-- two sources loaded into one store -/
+def Anchors.union : Anchors → Anchors → Anchors
+  | .empty, b => b
+  | a, .empty => a
+  | .right, .right => .right
+  | .wrong, .wrong => .wrong
+  | _, _ => .both
 
 /-- `anon` = a TLS peer that offers ONLY anonymous key exchange (no certificate; such suites exist up to TLS 1.2) -/
 inductive PeerKind | tls | plaintext | garbage | anon
@@ -570,13 +586,10 @@ def CCertKind.props : CCertKind → Option CertProps
 def TrustSel.anchors : TrustSel → Anchors
   | .right => .right | .wrong => .wrong | .none => .empty
 
-/-- what a context's store contains in a cell: an explicit location holds the configured CA; the default paths hold
-the system store `sys`; no call = empty -/
+/-- what a context's store contains in a cell: the explicit locations hold the configured CA, the default paths hold the
+system store `sys`, and the store is the UNION of everything that was loaded; no call = empty -/
 def storeOf (t : Trust) (configured sys : Anchors) : Anchors :=
-  match t with
-  | .none => .empty
-  | .locations _ _ => configured
-  | .default => sys
+  (if t.located then configured else .empty).union (if t.dflt then sys else .empty)
 
 /-- iora as client (Transport API) -/
 structure CliCell where
@@ -796,20 +809,28 @@ def Plan.session (outbound : Bool) (req : Mode) : Plan → Option Sess
 
 inductive HOp
   | setTls (c : HttpTls)
-  | touch                      -- anything that runs `ensureInitialized`: a request, `setDnsServers`, `addDnsServer`, `getDnsServers`
+  | touch                      -- anything that runs `ensureInitialized` successfully: a request, `setDnsServers`, `addDnsServer`, `getDnsServers`
+  | touchFail                  -- the same, but `_transport->start()` FAILS when it is attempted (e.g. a `caFile` that cannot be loaded): it throws
   deriving DecidableEq, Repr
 
 structure HState where
   stored : HttpTls := {}                  -- `_tlsConfig`
   applied : Option HttpTls := none        -- the settings the transport's client context was built from
+  dead : Bool := false                    -- `_transport` is set although its start failed: nothing initialises it again
   deriving DecidableEq, Repr
 
-/-- (state, `setTlsConfig` threw) -/
+/-- (state, the call threw) -/
 def hStep (s : HState) : HOp → HState × Bool
   | .setTls c =>
-    if setTlsConfigRejectsChangeAfterInit && s.applied.isSome && s.stored != c then (s, true)
+    if setTlsConfigRejectsChangeAfterInit && (s.applied.isSome || s.dead) && s.stored != c then (s, true)
     else ({ s with stored := c }, false)
-  | .touch => ({ s with applied := some (s.applied.getD s.stored) }, false)
+  | .touch =>
+    if s.dead then (s, true)               -- `ensureInitialized` skips a set `_transport`; the dead one serves nothing
+    else ({ s with applied := some (s.applied.getD s.stored) }, false)
+  | .touchFail =>
+    if s.applied.isSome then (s, false)    -- already initialised: nothing is attempted, so nothing fails
+    else if s.dead then (s, true)
+    else if initFailureReleasesTransport then (s, true) else ({ s with dead := true }, true)
 
 def hRun : HState → List HOp → HState
   | s, [] => s
